@@ -23,6 +23,10 @@ import (
 	"unicode"
 )
 
+// eof is returned by lookAt beyond the end of the input. It is not a valid
+// rune, so that a U+0000 in the source is not mistaken for the end of input.
+const eof rune = -1
+
 // Lexer is a lexical analyzer for Evy source code.
 type Lexer struct {
 	input []rune
@@ -122,7 +126,7 @@ func (l *Lexer) Next() *Token {
 			return tok.setType(ILLEGAL).setLiteral("invalid string")
 		}
 		return tok.setType(STRING_LIT).setLiteral(literal)
-	case 0:
+	case eof:
 		return tok.setType(EOF)
 	}
 	if isLetter(l.cur) {
@@ -160,7 +164,7 @@ func (l *Lexer) peekRune2() rune {
 
 func (l *Lexer) lookAt(pos int) rune {
 	if pos >= len(l.input) {
-		return 0
+		return eof
 	}
 	return l.input[pos]
 }
@@ -184,7 +188,7 @@ func (l *Lexer) readWhile(pred func(rune) bool) string {
 }
 
 func (l *Lexer) readComment() string {
-	return l.readWhile(func(r rune) bool { return r != 0 && r != '\n' })
+	return l.readWhile(func(r rune) bool { return r != eof && r != '\n' })
 }
 
 func (l *Lexer) readNum() string {
@@ -205,7 +209,7 @@ func (l *Lexer) readString() (string, error) {
 			l.advance() // end of string
 			break
 		}
-		if pr == 0 || pr == '\n' {
+		if pr == eof || pr == '\n' {
 			break // error case
 		}
 		l.advance()
